@@ -260,7 +260,9 @@ func (e *pccEngine) track(fn *ssa.Function, v ssa.Value, T pccType, depth int, r
 									return
 								}
 								f2 := calleeOf(c2)
-								if f2 == nil || (f2.Name() != "CopyTo" && f2.Name() != "MoveTo") || len(c2.Common().Args) != 2 {
+								// an attribute of a source that lives on (it is being split, not consumed) must be copied:
+								// moving it out leaves the source – and every later piece cut from it – without the attribute
+								if f2 == nil || f2.Name() != "CopyTo" || len(c2.Common().Args) != 2 {
 									return
 								}
 								if strip(c2.Common().Args[1]) != ssa.Value(acc) {
